@@ -181,6 +181,54 @@ def replay_leaf(fn: str, call: str):
     return (r is False), "returned %r" % (r,)
 
 
+def guard_table():
+    """(name, guard function, {int parameter: required range}, replay builder) - the range is what the immediate's
+    encoding can hold; the guard's source is translated on every run (verif/py2smt/guards.py)"""
+    import pyteal as pt
+    from pyteal.ast.txn import TxnaExpr, TxnArray
+    from pyteal.ast.gtxn import TxnGroup
+    from pyteal.ast.arg import Arg
+    from pyteal.ast.gaid import GeneratedID
+    from pyteal.ast.gload import ImportScratchValue
+    from pyteal.ast.scratch import ScratchSlot
+    from . import c04_leaf as L
+    big = (1 << 79) - 1
+    return [
+        ("TxnaExpr constant index", TxnaExpr._TxnaExpr__validate_index_or_throw, {"index": (0, 255)}, lambda w: L._check(lambda: L._ops(pt.Txn.application_args[w["index"]], 6))),
+        ("TxnArray.__getitem__ (lower bound only; the upper bound is TxnaExpr's)", TxnArray.__getitem__, {"index": (0, big)}, lambda w: L._check(lambda: L._ops(pt.Txn.accounts[w["index"]], 6))),
+        ("Gtxn[i]", TxnGroup.__getitem__, {"txnIndex": (0, 255)}, lambda w: L._check(lambda: L._ops(pt.Gtxn[w["txnIndex"]].amount(), 6))),
+        ("Arg(i)", Arg.__init__, {"index": (0, 255)}, lambda w: L._check(lambda: L._ops(pt.Arg(w["index"]), 6, pt.Mode.Signature))),
+        ("GeneratedID(i)", GeneratedID.__init__, {"txnIndex": (0, 255)}, lambda w: L._check(lambda: L._ops(pt.GeneratedID(w["txnIndex"]), 6))),
+        ("ImportScratchValue(t, s)", ImportScratchValue.__init__, {"txnIndex": (0, 255), "slotId": (0, 255)},
+         lambda w: L._check(lambda: L._ops(pt.ImportScratchValue(w["txnIndex"], w["slotId"]), 6))),
+        ("ScratchSlot(id)", ScratchSlot.__init__, {"requestedSlotId": (0, 255)}, lambda w: L.leaf_scratch_slot(w["requestedSlotId"])),
+    ]
+
+
+def run_guards(rep, timeout_ms):
+    from ..py2smt import guards as GD
+    from ..py2smt.ints import TranslatorError
+    obs = []
+    for name, fn, req, builder in guard_table():
+        try:
+            res = GD.check_guard(name, fn, req, {}, timeout_ms)
+        except TranslatorError as e:
+            rep.harness_error("guard %s can no longer be translated from its source: %s" % (name, e))
+            continue
+        for ob in res:
+            obs.append(ob)
+            if "reachable" in ob["guard"]:
+                if ob["result"] != "sat":
+                    rep.harness_error("vacuous guard obligation: %s" % ob["guard"])
+                continue
+            if ob["result"] == "sat":
+                ok = builder(ob["witness"])
+                ob["replay_passes"] = bool(ok)
+                if not ok:
+                    rep.violation({"kind": "guard", "guard": name, "witness": ob["witness"], "required": ob["required"], "source": ob["source"]}, ["guard:" + name])
+    return obs
+
+
 def main():
     t, sd = tier(), seed()
     rep = Report(PROP)
@@ -193,6 +241,7 @@ def main():
     th.start()
     results = run_jobs("verif.checks.c04:legality_job", jobs, nproc=max(2, (os.cpu_count() or 4) - 4))
     th.join()
+    guard_obs = run_guards(rep, 10000 if t == "quick" else 60000)
     st = Counter()
     agg = Counter()
     rejected_by_version = Counter()
@@ -252,9 +301,12 @@ def main():
         "rule": "one (recipe, version, mode, options) instance per evaluation; non-trivial = PyTeal emitted a program (rejections are counted separately)",
         "programs": st["ok"], "samples": samples or [{"id": "none"}],
         "states": agg["instructions"] + agg["s_steps"], "transitions": agg["s_forks"] + agg["labels"], "traces_validated_against_impl": agg["replayed"],
-        "obligations": st["ok"] + len(leaf_res), "discharged": st["ok"] - len(rep.violations) + leaf_conf, "inconclusive": leaf_unk,
+        "obligations": st["ok"] + len(leaf_res) + len(guard_obs), "discharged": st["ok"] - len(rep.violations) + leaf_conf + sum(1 for o in guard_obs if o["result"] == "unsat"),
+        "inconclusive": leaf_unk + sum(1 for o in guard_obs if o["result"] not in ("sat", "unsat")),
         "compile_status": dict(st), "legality_probes_rejected_by_pyteal_per_version": dict(rejected_by_version),
         "compiler_crashes": crashes[:30], "feasible_paths_explored": agg["paths"],
+        "guards_translated_from_source": guard_obs,
+        "guard_obligations_unsat": sum(1 for o in guard_obs if o["result"] == "unsat"),
         "crosshair": leaf_res, "crosshair_confirmed": leaf_conf, "crosshair_refuted_and_replayed": leaf_ref, "crosshair_inconclusive": leaf_unk,
         "solver_time_s": round(agg["s_solver_time"], 2), "known_findings_hit": dict(rep.known_hits),
         "functions_encoded": "pyteal/ast/{txn,gtxn,arg,scratch,substring,int}.py leaf constructors + __teal__ under CrossHair; emitted TEAL of all families",
@@ -267,6 +319,11 @@ def main():
 
 
 def replay(record):
+    if record.get("kind") == "guard":
+        for name, fn, req, builder in guard_table():
+            if name == record["guard"]:
+                return not builder(record["witness"])
+        return False
     if record.get("kind") == "leaf-immediate":
         bad, how = replay_leaf(record["fn"], record["call"])
         print(how)
